@@ -3,6 +3,7 @@ package main
 import (
 	"fmt"
 	"strings"
+	"time"
 )
 
 var builtinNames = []string{"between", "float", "getenv", "int", "join", "keys", "len", "lower", "match", "max", "min",
@@ -75,7 +76,7 @@ func genBuiltinCalls(stream string, seed uint64, perFn int) []GenCase {
 		for _, b := range bigs {
 			c := Case{ID: fmt.Sprintf("%s-%d", stream, id), Opt: r.Bool(), Fns: []HostFn{recFn()}, Tags: []string{"minmax-agree"},
 				Script: fmt.Sprintf("a = %s; b = %s; return [min(a, b), (a <= b) ? a : b, max(a, b), (b <= a) ? a : b, between(a, b, b), (b <= a) && (a <= b), between(a, a, b), (a <= a) && (a <= b)];", a, b),
-				Runs: []Run{{Obj: stdObject(r), Polls: defaultPolls}}}
+				Runs:   []Run{{Obj: stdObject(r), Polls: defaultPolls}}}
 			id++
 			out = append(out, GenCase{Case: c, Stream: stream, NonTrivial: true, Role: "agree:pairs"})
 		}
@@ -104,6 +105,37 @@ func genBuiltinCalls(stream string, seed uint64, perFn int) []GenCase {
 			Runs:   []Run{{Obj: stdObject(r), Polls: defaultPolls}}}
 		id++
 		out = append(out, GenCase{Case: c, Stream: stream, NonTrivial: true, Role: "expecttrue"})
+	}
+	// the time functions decompose a time as the host's time library does IN THE CONFIGURED ZONE ($TZ): the
+	// expectation is computed with package time itself; the model has no zone database, so these cases are
+	// judged by that expectation alone
+	for _, zone := range []string{"Asia/Tokyo", "Pacific/Auckland", "America/New_York", "Europe/London", "Asia/Kolkata", "UTC", ""} {
+		loc := time.UTC
+		if zone != "" {
+			if l, err := time.LoadLocation(zone); err == nil {
+				loc = l
+			} else {
+				continue
+			}
+		}
+		for _, ts := range []int64{0, 86399, 951782400, 1700000000, 1711846800, 1730599200, -1, 1735689599, 4102444800} {
+			tm := time.Unix(ts, 0).In(loc)
+			hr, mi, se := tm.Clock()
+			y, mo, d := tm.Date()
+			want := fmt.Sprintf("%d-%d-%d %d:%d:%d %s", y, int(mo), d, hr, mi, se, tm.Weekday().String())
+			c := Case{ID: fmt.Sprintf("%s-%d", stream, id), Opt: r.Bool(), Fns: []HostFn{recFn()}, Tags: []string{"time-in-zone", "zone:" + zone},
+				Script: fmt.Sprintf("t = %d; return sprintf(\"%%d-%%d-%%d %%d:%%d:%%d %%s\", year(t), month(t), day(t), hour(t), minute(t), seconds(t), weekday(t));", ts),
+				Runs:   []Run{{Obj: stdObject(r), Polls: defaultPolls}}}
+			if zone != "" {
+				c.Show = append(c.Show, "tz="+zone)
+			}
+			id++
+			gc := GenCase{Case: c, Stream: stream, NonTrivial: true, Role: "expect:" + hexs(want)}
+			if zone != "" && zone != "UTC" {
+				gc.ModelFree = true
+			}
+			out = append(out, gc)
+		}
 	}
 	// well-typed uses
 	for k := 0; k < perFn*4; k++ {
